@@ -375,7 +375,13 @@ class C05(Harness):
                 if rec["cutoff"] is not None:
                     P.eq("moving-cutoff-window", rec["cutoff"], s0 + pos, {"pass": pi, "what": "cutoff"})
                 exp = self._expected(cell["strategy"], fh, wl, data[pos + 1 - wl : pos + 1])
-                got = [v for v in rec["vals"] if not (v is None or (isinstance(v, float) and v != v))]  # frame columns are NaN off their own labels
+                isn = lambda v: v is None or (isinstance(v, float) and v != v)  # noqa: E731
+                if rec.get("rows") is not None:
+                    # frame columns are NaN off their own labels; the frame's rows are in order of first appearance
+                    pairs = sorted(((int(lab - s0), v) for lab, v in zip(rec["rows"], rec["vals"]) if not isn(v)), key=lambda t: t[0])
+                    got = [v for _, v in pairs]
+                else:
+                    got = [v for v in rec["vals"] if not isn(v)]
                 P.check("moving-cutoff-window", len(got) == K, {"pass": pi})
                 for v, e in zip(got, exp):
                     P.eq("moving-cutoff-window", v, e, {"pass": pi, "cutoff_pos": pos})
